@@ -761,6 +761,19 @@ def mon_C06(blocks):
         v = b.inp
         d, why = verdict(b)
         _, _, ip, ua, _ = req_fields(b)
+        if d == "refuse" and why in ("ip", "ua") and a.cfg["maxCache"] not in (0, 1):
+            # the record says "anomaly"; what did the client's previous accepted request really look like?
+            sid0 = g.sid_of.get(v)
+            point = last_req.get(sid0) if (sid0 is not None and g.cur.get(sid0) == v) else repl_point.get(v)
+            if point is not None:
+                pip, pua = point
+                if why == "ua" and pua == ua:
+                    out.append(Violation(b.idx, "an unchanged User-Agent (%r) cost the session: the recorded fingerprint is %s, the header hashes to %d"
+                                         % (ua, (found_pre(b, v)[0] or {}).get("ua"), agent_hash(ua))))
+                    return
+                if why == "ip" and pip == ip:
+                    out.append(Violation(b.idx, "an unchanged peer address (%s) cost the session: recorded %s" % (ip, (found_pre(b, v)[0] or {}).get("ip"))))
+                    return
         if d == "refuse" and why in ("ip", "ua"):
             served = b.ret == "sess" and b.ss and (_unq(b.ss["id"]) == v or _unq(b.ss["id"]) in a.pre_store or _unq(b.ss["id"]) in a.pre_cache)
             if served:
